@@ -74,7 +74,12 @@ def gen_binders(names):
     bodies = [f'{x} /\\ {y}', f'{x} => {y} \\/ {z}', f'{x} <=> {y} # {z}', f'~ {x} | {w}']
     binders = [f'\\E {x}', f'\\A {x}', f'\\E {x}, {y}', f'\\A {y}, {z}', f'\\E {w}']
     subs = [f'\\S {y} / {x}', f'\\S {x} / {y}, {y} / {x}', f'\\S {w} / {z}, {z} / {x}',
-            f'\\S {x} / {x}']
+            f'\\S {x} / {x}',
+            # chains and exchanges in BOTH written orders (the substitution is simultaneous:
+            # the order of the pairs must not matter), also with the middle variable absent
+            # from the body
+            f'\\S {z} / {x}, {w} / {z}', f'\\S {y} / {x}, {z} / {y}', f'\\S {z} / {y}, {y} / {x}',
+            f'\\S {y} / {x}, {x} / {y}', f'\\S {w} / {y}, {y} / {x}, {x} / {w}']
     for b in binders + subs:
         for body in bodies:
             yield f'{b}: {body}'
